@@ -734,6 +734,15 @@ func (s Emitter) WriteExpression(output io.Writer, expression cypher.Expression)
 		}
 
 	case *cypher.KindMatcher:
+		if typedExpression.IsExclusive && len(typedExpression.Kinds) > 1 {
+			// all-of: `ref:A:B`, the form the parser reads back as an exclusive matcher
+			if err := s.WriteExpression(output, typedExpression.Reference); err != nil {
+				return err
+			}
+
+			return s.WriteExpression(output, typedExpression.Kinds)
+		}
+
 		if len(typedExpression.Kinds) > 1 {
 			if _, err := io.WriteString(output, "("); err != nil {
 				return err
